@@ -22,18 +22,18 @@ def write_cfg(name, text):
     return p
 
 
-def mc_cfg(nk, nth, ihmax, vals, tworun, emit, invariants=None, prop=None, spec="Spec"):
+def mc_cfg(nk, nth, ihmax, vals, tworun, emit, invariants=None, prop=None, spec="Spec", patterns=False):
     inv = invariants if invariants is not None else ["BoundsOK", "TableOK", "AllLabelled", "OnePerRegionalMax",
                                                        "ConstNoPartition", "ShiftEquivariant"]
-    txt = "SPECIFICATION %s\nCONSTANTS\n NK = %d\n NTH = %d\n IHMAX = %d\n Vals = {%s}\n TWORUN = %s\n EMIT = %s\n" % (
+    txt = "SPECIFICATION %s\nCONSTANTS\n NK = %d\n NTH = %d\n IHMAX = %d\n Vals = {%s}\n TWORUN = %s\n EMIT = %s\n PATTERNS = %s\n" % (
         spec, nk, nth, ihmax, ",".join(str(v) for v in vals), "TRUE" if tworun else "FALSE",
-        "TRUE" if emit else "FALSE")
+        "TRUE" if emit else "FALSE", "TRUE" if patterns else "FALSE")
     for i in inv:
         txt += "INVARIANT %s\n" % i
     if prop:
         txt += "PROPERTY %s\n" % prop
-    return write_cfg("ws_%d_%d_%d_%s_%d%d_%s.cfg" % (nk, nth, ihmax, "".join(map(str, vals)), tworun, emit,
-                                                    spec + (prop or "")), txt)
+    return write_cfg("ws_%d_%d_%d_%s_%d%d%d_%s.cfg" % (nk, nth, ihmax, "".join(map(str, vals)), tworun, emit, patterns,
+                                                      spec + (prop or "")), txt)
 
 
 # ------------------------------------------------------------------ native driver
@@ -128,6 +128,8 @@ def trace_lines(tid, case, events, out, pair=2):
             continue
         if k == "const":
             lines.append({"ev": "const"})
+        elif k == "pinit":
+            lines.append({"ev": "pinit", "a": ev["a"], "b": ev["b"], "c": ev["c"], "d": ev["d"]})
         elif k in ("imi", "ind"):
             lines.append({"ev": k, "arr": ev["arr"]})
         elif k == "level":
